@@ -1,5 +1,6 @@
 import FV.Proofs.RectSearch
 import FV.Proofs.RectSat
+import FV.Proofs.RectIO
 import Mathlib.Algebra.Order.Ring.Unbundled.Rat
 /-
   C08 — the rectilinear shape search admits exactly the k-box single-trunk orthogons.
@@ -396,6 +397,92 @@ theorem solve_found_iff_cnf {P : Problem α} (hP : Problem.WellFormed P) {k : Na
       have hi' := List.mem_range.1 hi
       exact bboxOf_eq G (hO.box i hi').1 (hB i hi')
 
+open FV.RectSat in
+/-- **The rectangles it returns are the boxes of such a shape — on the RETURN VALUE.**  `solveReturn` is the value
+    `rect.solve` returns (rect.py:235-281), computed from what the SAT layer answers: the Boolean `sm.solve()` returns,
+    `sm.evalexpr(selarea / realarea / obj)` and `sm.value(sm.newvar("b<i>_<b>", "")) == 1` for every box and cell.
+    With everything `solve` posts on a manager in which the variables `b_<b>`, `b<i>_<b>` are registered (`hreg`; `solve`
+    registers every variable through `newvar`) and a correct SAT solver:
+    * if `sm.solve()` is `False`, `solve` returns "insat" (`(0, 1), [], 0`) and no k-box single-trunk orthogon meets the bound;
+    * if it is `True`, `solve` does not raise, and it returns `(cost, 1)` and `k` rectangles such that for some k-box
+      single-trunk orthogon `S`/`R` of the grid meeting the bound, the rectangles are exactly `R 0, …, R (k-1)` — the
+      trunk first — and `cost` is its objective plus one. -/
+theorem solve_return_sound {P : Problem α} (hP : Problem.WellFormed P) {k : Nat} (hk : 0 < k)
+    {nm : Var α → String} (hinj : Function.Injective nm) {ratio dif0 : Int}
+    {S0 : PB.Store Sat.Var} (hw : PB.WFStore S0) {m0 : Sat.Mgr} (hc : m0.clauses = []) (hd : m0.codified = [])
+    (hnd : m0.vars.Nodup)
+    {ps : List Sat.Post} {m : Sat.Mgr} {S1 : PB.Store Sat.Var} (hps : solvePosts nm P ratio dif0 k = some ps)
+    (hpost : postAll m0 S0 ps = .ok (m, S1))
+    (hreg : ∀ b ∈ P.C.blocks, Sat.Var.user (nm (.sel b)) ∈ m.vars ∧ ∀ i, i < k → Sat.Var.user (nm (.cell i b)) ∈ m.vars)
+    {cnf : List (List Int)} (hcnf : m.cnf = .ok cnf) {ans : Option (List Int)} (hsolver : Sat.SolverOK cnf ans)
+    {b : Bool} {m' : Sat.Mgr} (hs : m.solve ans = .ok (b, m')) :
+    (b = false → solveReturn nm P ratio k b m' = .insat ∧
+      ¬∃ S R, IsOrthogon P.C P.ip k S R ∧ dif0 ≤ shapeCost P ratio k S) ∧
+    (b = true → ∃ S R, IsOrthogon P.C P.ip k S R ∧ dif0 ≤ shapeCost P ratio k S ∧
+      solveReturn nm P ratio k b m' =
+        .found (shapeCost P ratio k S + 1) ((List.range k).map fun i => some (R i))) := by
+  have main := solve_found_iff_cnf hP hk hinj (ratio := ratio) (dif0 := dif0) hw hc hd hnd hps hpost hcnf hsolver hs
+  constructor
+  · intro hb
+    subst hb
+    refine ⟨by simp [solveReturn], fun hex => ?_⟩
+    have := main.1.2 hex
+    simp at this
+  · intro hb
+    subst hb
+    obtain ⟨_, h2⟩ := Sat.solve_spec (postAll_nodup ps hpost hnd) hcnf hsolver hs
+    obtain ⟨τ, hτ, hval⟩ := h2 rfl
+    have hP' := hP
+    obtain ⟨hC, hg⟩ := hP
+    have G : IsGridFor P.C P.ip := by rw [hC]; exact isGridFor_of_isGrid hg
+    obtain ⟨sh, hsh⟩ := shapeAux_isSome P (keysOk_of_grid G) (List.range k)
+    rw [← shapeConstrs_eq] at hsh
+    have hcs : solveConstrs P ratio dif0 k = some _ := solveConstrs_eq_some.2 ⟨sh, hsh, rfl⟩
+    obtain ⟨ps', hps', hwf, hholds⟩ := solvePosts_spec nm hcs
+    rw [hps] at hps'; cases hps'
+    obtain ⟨m2, S2, hpost', inv⟩ := postAll_ok ps (minv_fresh hw m0 hc hd) hwf
+    rw [hpost] at hpost'; cases hpost'
+    simp only [List.nil_append] at inv
+    have hsat : Sat (pull nm τ) _ := (hholds τ).1 (inv.sound τ hτ)
+    obtain ⟨l1, l2, l3, l4, l5⟩ := (sat_solve P G hcs).1 hsat
+    obtain ⟨R, hO, hB⟩ := orthogon_of_sat G (S := fun i b => pull nm τ (.cell i b)) l4 l5 (fun _ _ _ _ => rfl) hk
+    -- `value` agrees with `τ` on the block variables of the k boxes; for boxes `i ≥ k` nothing is read
+    have hcost : dif0 ≤ shapeCost P ratio k (fun i b => pull nm τ (.cell i b)) := by
+      rw [← pbSum_obj P G.blocks_eq ratio l1]; exact l3
+    refine ⟨fun i b => pull nm τ (.cell i b), R, hO, hcost, ?_⟩
+    -- evaluate `solveReturn` through `value` / `evalexpr`
+    have hE : ∀ e : PB.Expr Sat.Var, (∀ y ∈ e.t, ∃ b ∈ P.C.blocks, y.L.v = trVar nm (.sel b)) →
+        m'.evalExpr e = some (e.eval τ) := by
+      intro e he
+      apply Sat.evalExpr_spec
+      intro t ht
+      obtain ⟨b, hb, hv⟩ := he t ht
+      have := hval t.L.v (by rw [hv]; exact (hreg b hb).1) t.L.s
+      cases hL : t.L with
+      | mk v s => rw [hL] at this; exact this
+    have hbox : ∀ i, i < k → bboxFromMgr nm m' P.C P.ip i = bboxOf P.C P.ip (pull nm τ) i := by
+      intro i hi
+      unfold bboxFromMgr bboxOf
+      apply foldl_congr_mem
+      intro bc hbc acc
+      have hv : m'.value ⟨trVar nm (.cell i bc.1), true⟩ = some (PB.litVal τ ⟨trVar nm (.cell i bc.1), true⟩) :=
+        hval _ ((hreg bc.1 (mem_cellsOf_block hbc)).2 i hi) true
+      have h1 : (m'.value ⟨trVar nm (.cell i bc.1), true⟩ = some 1) ↔ pull nm τ (.cell i bc.1) = true := by
+        rw [Sat.value_one_iff hv]; simp [PB.litTrue, pull]
+      by_cases hc' : pull nm τ (.cell i bc.1) = true
+      · rw [if_pos (h1.2 hc'), if_pos hc']
+      · rw [if_neg (fun hh => hc' (h1.1 hh)), if_neg hc']
+    unfold solveReturn
+    rw [hE _ (areaExpr_sel nm P _), hE _ (areaExpr_sel nm P _), hE _ (objExpr_sel nm P ratio), objExpr_eval]
+    simp only [Bool.true_eq_false, if_false]
+    rw [pbSum_obj P G.blocks_eq ratio l1]
+    congr 1
+    apply List.map_congr_left
+    intro i hi
+    have hi' := List.mem_range.1 hi
+    rw [hbox i hi']
+    exact bboxOf_eq G (hO.box i hi').1 (hB i hi')
+
 /-- the variable names of `rect.py` (`pyName str`, `str` = Python's `str` on coordinates) are pairwise distinct as soon
     as distinct coordinates have distinct `str`, and all start with `b` — none is a `robdd_<n>` / `aux_<n>` name of
     the SAT layer nor a negated name.  (That they contain no `,` — used by the ROBDD memo keys — holds iff `str` of a
@@ -403,6 +490,94 @@ theorem solve_found_iff_cnf {P : Problem α} (hP : Problem.WellFormed P) {k : Na
 theorem names_ok (str : α → String) (hstr : Function.Injective str) :
     Function.Injective (RectSat.pyName str) ∧ ∀ v, (RectSat.pyName str v).toList.head? = some 'b' :=
   ⟨RectSat.pyName_injective str hstr, RectSat.pyName_head str⟩
+
+/-! ### building the grid from an allocation (`rect_io.select_box`, `snap_coordinates`; model `FV/Model/RectIO.lean`) -/
+section SelectBox
+open FV.RectIO
+variable {β : Type} [Field β] [LinearOrder β] [IsStrictOrderedRing β]
+
+/-- `snap_coordinates`: every coordinate is mapped to one of the coordinates, not above it and within the tolerance of it,
+    and two different representatives are MORE than the tolerance apart: whatever float noise the corners `centre ± size/2`
+    carry, no sliver narrower than the tolerance survives between two grid lines -/
+theorem snap_no_sliver (values : List β) {tol : β} (htol : 0 ≤ tol) :
+    (∀ q ∈ snapCoordinates values tol, q.2 ∈ values ∧ q.2 ≤ q.1 ∧ q.1 - q.2 ≤ tol) ∧
+    (∀ q ∈ snapCoordinates values tol, ∀ q' ∈ snapCoordinates values tol, q.2 < q'.2 → tol < q'.2 - q.2) ∧
+    (snapCoordinates values tol).map Prod.fst = sortedDistinct values :=
+  ⟨(snap_spec values htol).2.1, (snap_spec values htol).2.2, (snap_spec values htol).1⟩
+
+/-- `select_box` returns one box per record of the allocation, in the order of the records, with the occupancy the
+    record lists for the selected module (`0` where it does not list it) -/
+theorem selectBox_one_box_per_record {sel : String} {ifile : List (IRect β)} {out : List (Cell β × β)}
+    (h : selectBox sel ifile = some out) :
+    out.length = ifile.length ∧
+    ∀ i (hi : i < ifile.length) (ho : i < out.length), out[i].2 = occOf ((0 : Nat) : β) sel ifile[i].mods :=
+  selectBox_shape h
+
+/-- on an exact grid (corner coordinates more than the tolerance apart, cells listed in any order) `select_box` returns
+    exactly the corners `centre ± size / 2` — snapping changes nothing -/
+theorem selectBox_exact_grid {sel : String} {ifile : List (IRect β)} {tol : β} (hne : ifile ≠ [])
+    (ht : snapTol (ifile.map (rawBox sel)) = some tol)
+    (hx : (sortedDistinct (xsOf (ifile.map (rawBox sel)))).Pairwise (fun a b => tol < b - a))
+    (hy : (sortedDistinct (ysOf (ifile.map (rawBox sel)))).Pairwise (fun a b => tol < b - a)) :
+    selectBox sel ifile = some (ifile.map (rawBox sel)) :=
+  selectBox_exact hne ht hx hy
+
+/-- `get_alloc` keeps the cells of the allocation one to one and in order (`dim` = centre and size as stored, `mod` = one
+    single-entry dictionary per module of the cell), and the occupancy `select_box` then reads for a module from such a
+    record is the ratio the allocation holds for it (`0` if the cell does not list the module) -/
+theorem getAlloc_selectBox_occupancy (cells : List ((β × β × β × β) × List (String × β))) (sel : String) :
+    (getAlloc cells).length = cells.length ∧
+    ∀ i (hi : i < cells.length) (ho : i < (getAlloc cells).length),
+      ((getAlloc cells)[i].xc, (getAlloc cells)[i].yc, (getAlloc cells)[i].w, (getAlloc cells)[i].h) = cells[i].1 ∧
+      occOf ((0 : Nat) : β) sel (getAlloc cells)[i].mods =
+        (cells[i].2.foldl (fun acc q => if q.1 = sel then some q.2 else acc) none).getD ((0 : Nat) : β) := by
+  refine ⟨(getAlloc_records cells).1, fun i hi ho => ?_⟩
+  obtain ⟨h1, h2⟩ := (getAlloc_records cells).2 i hi ho
+  exact ⟨h1, by rw [h2, occOf_getAlloc]⟩
+
+/-- the problem `main` builds from the boxes `select_box` returns (`definecoords`, `area`) is well formed as soon as the
+    boxes form a grid -/
+theorem problemOf_wellFormed [TruncInt β] (factor : Nat) (boxes : List (Cell β × β)) (hg : IsGrid (boxes.map Prod.fst)) :
+    Problem.WellFormed (problemOf factor boxes) := ⟨rfl, hg⟩
+
+/-- **From the allocation to the answer.**  For an allocation whose records form an exact grid (any listing order): what
+    `main` does — `select_box`, `definecoords`, `area`, `solve` — never raises, and with a correct solver it returns a shape
+    iff a k-box single-trunk orthogon of THAT grid (the cells `centre ± size/2`, integer areas
+    `int(factor·p·w·h)` / `int(factor·w·h)`) meets the cost bound. -/
+theorem pipeline_found_iff [TruncInt β] {sel : String} {ifile : List (IRect β)} {tol : β} (hne : ifile ≠ [])
+    (ht : snapTol (ifile.map (rawBox sel)) = some tol)
+    (hx : (sortedDistinct (xsOf (ifile.map (rawBox sel)))).Pairwise (fun a b => tol < b - a))
+    (hy : (sortedDistinct (ysOf (ifile.map (rawBox sel)))).Pairwise (fun a b => tol < b - a))
+    (hg : IsGrid ((ifile.map (rawBox sel)).map Prod.fst)) {k : Nat} (hk : 0 < k)
+    {solver : List (Constr β) → Option (Assign β)} (hsolver : SolverSpec solver) (factor : Nat) (ratio dif0 : Int) :
+    ∃ boxes, selectBox sel ifile = some boxes ∧ boxes = ifile.map (rawBox sel) ∧
+      ((∃ cost rects, solve solver (problemOf factor boxes) ratio dif0 k = some (.found cost rects)) ↔
+        ∃ S R, IsOrthogon (problemOf factor boxes).C (problemOf factor boxes).ip k S R ∧
+          dif0 ≤ shapeCost (problemOf factor boxes) ratio k S) :=
+  ⟨_, selectBox_exact hne ht hx hy, rfl,
+    solve_found_iff (problemOf_wellFormed factor _ hg) hk hsolver ratio dif0⟩
+
+end SelectBox
+
+/-- an allocation of two cells given as (centre, size) in decimal coordinates, listed right cell first; module `M`
+    occupies 0.9 of the left cell and is not listed in the right one -/
+def exAlloc : List (RectIO.IRect Rat) :=
+  [⟨9/20, 1/2, 3/10, 1, some [[("Z", 1)]]⟩, ⟨3/20, 1/2, 3/10, 1, some [[("M", 9/10)], [("Z", 1/10)]]⟩]
+
+/-- `select_box` gives the two cells (same order), the grid they form is a grid in the sense of the theorems above, and the
+    hypotheses of `selectBox_exact_grid` hold for it -/
+example : RectIO.selectBox "M" exAlloc = some [(⟨3/10, 0, 3/5, 1⟩, 0), (⟨0, 0, 3/10, 1⟩, 9/10)] := by decide +kernel
+example : IsGrid ((([(⟨3/10, 0, 3/5, 1⟩, 0), (⟨0, 0, 3/10, 1⟩, 9/10)] : List (Cell Rat × Rat))).map Prod.fst) := by decide +kernel
+example : RectIO.snapTol (exAlloc.map (RectIO.rawBox "M")) = some (1 / 1000000000) ∧
+    (RectIO.sortedDistinct (RectIO.xsOf (exAlloc.map (RectIO.rawBox "M")))).Pairwise (fun a b => (1 : Rat) / 1000000000 < b - a) := by
+  decide +kernel
+/-- the integer areas `rect.area` computes for them (factor 10000) -/
+example : (RectIO.problemOf 10000 [((⟨3/10, 0, 3/5, 1⟩ : Cell Rat), (0 : Rat)), (⟨0, 0, 3/10, 1⟩, 9/10)]).selA = [0, 2700] ∧
+    (RectIO.problemOf 10000 [((⟨3/10, 0, 3/5, 1⟩ : Cell Rat), (0 : Rat)), (⟨0, 0, 3/10, 1⟩, 9/10)]).realA = [3000, 3000] := by
+  decide +kernel
+/-- noise below the tolerance is snapped away: the left cell's side at `1e-17` joins the grid line `0` of the cell above it -/
+example : (RectIO.selectBox "M" [⟨3/20, 1/2, 3/10, 1, none⟩, ⟨3/20 + 1/100000000000000000, 3/2, 3/10, 1, none⟩]).map
+    (fun l => l.map fun b => b.1.x0) = some [0, (0 : Rat)] := by decide +kernel
 
 /-! ### non-vacuity -/
 
@@ -474,5 +649,34 @@ def exRun : Option (Nat × Bool × Bool) :=
     | .ok (m, S) => some (ps.length, decide (2 < S.memory.length), match m.cnf with | .ok _ => true | .error _ => false)
 
 example : exRun = some (54, true, true) := by decide +kernel
+
+/-- the return-value model on that grid: with the exposed model `b_0 = b_1 = 1`, box 0 = {cell 0}, box 1 = {cell 1}, `solve`
+    returns cost `2·(9000 + 30000) − (10000 + 40000) + 1` and the two cells as rectangles (trunk first); if `b_1` has no value
+    (`evalexpr` answers `None`) it raises; if `sm.solve()` is `False` it returns "insat" -/
+def exProblem : Problem Nat :=
+  ⟨[⟨1, 3, 2, 5⟩, ⟨2, 3, 4, 5⟩], defineCoords [⟨1, 3, 2, 5⟩, ⟨2, 3, 4, 5⟩], [9000, 30000], [10000, 40000]⟩
+def exModel : List (Sat.Var × Int) :=
+  [(.user "b_0", 1), (.user "b_1", 1), (.user "b0_0", 1), (.user "b0_1", 0), (.user "b1_0", 0), (.user "b1_1", 1)]
+
+example : (match RectSat.solveReturn (RectSat.pyName toString) exProblem 2 2 true { model := exModel } with
+    | .found c rs => some (c, rs) | _ => none) = some (28001, [some ⟨1, 3, 2, 5⟩, some ⟨2, 3, 4, 5⟩]) := by decide +kernel
+
+example : (match RectSat.solveReturn (RectSat.pyName toString) exProblem 2 2 true { model := exModel.eraseIdx 1 } with
+    | .raised => true | _ => false) = true := by decide +kernel
+
+example : (match RectSat.solveReturn (RectSat.pyName toString) exProblem 2 2 false { model := exModel } with
+    | .insat => true | _ => false) = true := by decide +kernel
+
+/-- the registration hypothesis `hreg` of `solve_return_sound` holds for the manager of `exRun` (every variable of the
+    postings registered beforehand, as `rect.py` does through `newvar`) -/
+example : (match RectSat.solvePosts (RectSat.pyName toString) exProblem 2 25000 2 with
+    | none => false
+    | some ps =>
+      match RectSat.postAll (RectSat.registered ps) PB.Store.init ps with
+      | .error _ => false
+      | .ok (m, _) => exProblem.C.blocks.all fun b =>
+          decide (Sat.Var.user (RectSat.pyName (α := Nat) toString (.sel b)) ∈ m.vars) &&
+          (List.range 2).all fun i => decide (Sat.Var.user (RectSat.pyName (α := Nat) toString (.cell i b)) ∈ m.vars)) = true := by
+  decide +kernel
 
 end FV.C08
